@@ -19,7 +19,8 @@ PLAN  = {"quick":    {"shards": 8, "parallel": 5, "cases": 120,  "timeout": 900}
          "thorough": {"shards": 8, "parallel": 5, "cases": 3000, "timeout": 6000}}
 REQUIRED = ["oracle.exactly-once", "oracle.pid-quota", "oracle.exception-contract", "oracle.abandon", "observed.restarts",
             "observed.multi-worker-runs", "perturb.line-events"]
-ASSUMPTIONS = ["outputs are never None (None is the documented poison pill)", "order of outputs is not asserted (multiset)",
+ASSUMPTIONS = ["outputs are never None (None is the documented poison pill)",
+               "CobaMultiprocessor deliberately turns RuntimeError into coba_exit (spawn bootstrapping guard): RuntimeError is only raised through the plain Multiprocessor", "order of outputs is not asserted (multiset)",
                "a hang is a violation only when the logical deadlock state is established (all workers dead, loader and callback "
                "threads finished, consumer blocked in queue.get); any other watchdog firing is inconclusive",
                "INSTRUCTION-level yields inside the two completion closures emulate the pre-3.10 evaluation loop (coba declares "
@@ -56,9 +57,15 @@ def gen_case(rng, idx=0):
         # "finish-together" burst: many workers, no jitter, dense bytecode-level yields in the completion callbacks
         n = max(n, rng.choice([4, 5, 6])); wj = lj = cj = 0
         perturb = {"kind": "instr", "p_line": .1, "p_instr": .5, "max_ms": 4, "burst": True}
-    return {"n": n, "m": m, "n_items": items, "items_class": base, "via": via, "mode": mode, "pattern": pat, "kmap": kmap,
+    tail = 0
+    if m > 0 and rng.random() < .5:
+        # slow source + slow process launch: the loader may finish while a retired worker is being replaced
+        tail = rng.choice([50, 150, 400]); perturb = dict(perturb, slow_start=True) if perturb["kind"] != "none" else {"kind": "line", "p_line": .5, "max_ms": 25, "slow_start": True}
+        items = max(items, 2)
+        for uid in range(items): kmap.setdefault(uid, 1)
+    return {"tail_delay_ms": tail, "n": n, "m": m, "n_items": items, "items_class": base, "via": via, "mode": mode, "pattern": pat, "kmap": kmap,
             "raising_kind": rkind, "raising": raising, "abandon": abandon, "perturb": perturb, "perturb_seed": rng.randrange(1 << 30),
-            "worker_jitter_ms": wj, "loader_jitter_ms": lj, "consumer_jitter_ms": cj, "watchdog_s": 45}
+            "worker_jitter_ms": wj, "loader_jitter_ms": lj, "consumer_jitter_ms": cj, "watchdog_s": 45, "exc_type": rng.choice(["ValueError", "KeyError", "InjectedFailure", "AssertionError", "EOFError", "TypeError"] if via == "coba" else ["ValueError", "KeyError", "RuntimeError", "InjectedFailure", "AssertionError", "EOFError", "TypeError"])}
 
 def run_case(spec, workdir):
     side = os.path.join(workdir, "side.log")
@@ -137,10 +144,11 @@ def judge(spec, res, processed):
     if spec["raising"]:
         r = res.get("raised")
         ok_msgs = {f"boom-{u}" for u in spec["raising"]}
+        ok_type = spec.get("exc_type", "ValueError")
         if r is None:
             v.append((f"exception-swallowed/{feat}", f"filter raises for items {spec['raising'][:5]} but the call returned normally with {len(got)} outputs"))
-        elif r["type"] != "ValueError" or r["msg"] not in ok_msgs:
-            v.append((f"wrong-exception/{feat}", f"expected ValueError(boom-<uid>) got {r}"))
+        elif r["type"] != ok_type or r["msg"].strip("'\"") not in ok_msgs:
+            v.append((f"wrong-exception/{feat}", f"expected {ok_type}(boom-<uid>) got {r}"))
     elif spec["abandon"] is not None:
         if not res.get("closed"): v.append((f"abandon/close-did-not-return/{feat}", "close() did not return"))
         if res.get("raised"): v.append((f"abandon/raised/{feat}", f"abandoning raised {res['raised']}"))
